@@ -8,3 +8,5 @@ mod c16;
 mod gen_c16;
 #[cfg(kani)]
 mod c10;
+#[cfg(kani)]
+mod c03;
